@@ -14,13 +14,13 @@ import (
 
 func Run(c *vh.Ctx) {
 	chkfam.Run(c, chkfam.Config{
-		Stream: "c06", NQuick: 300, NThorough: 5000,
+		Stream: "c06", NQuick: 450, NThorough: 5000,
 		Profile: func(r *rand.Rand) scen.Profile {
 			return scen.Profile{
 				Steps: 60 + r.Intn(60), Cluster: r.Intn(4) == 0, Hosted: r.Intn(4) == 0, Delegated: []float64{0, 0.3, 0.5}[r.Intn(3)], MaxRevisions: 1 + r.Intn(3),
 				Weights: scen.WeightsWith(map[string]int{"reconcile": 45, "workload": 20, "adv-delete": 3, "adv-reown": 2, "adv-edit": 3, "user-archive": 4, "user-delete": 2, "user-pause": 3, "user-unpause": 3,
 					"user-next-revision": 5, "fault": 4, "restart": 2, "user-touch-spec": 4, "adv-create": 0, "adv-relabel": 1, "adv-recreate": 1}),
-				CPs: []string{"", "None", "IfNoController"}, LagMax: []int{0, 0, 2, 4}[r.Intn(4)],
+				CPs: []string{"", "None", "IfNoController"}, LagMax: []int{0, 2, 4, 6}[r.Intn(4)],
 				Sliced: r.Intn(3) == 0, SliceSeed: r.Int63(),
 			}
 		},
@@ -47,6 +47,6 @@ func Run(c *vh.Ctx) {
 		Gates: []chkfam.Gate{{"c06_available_true_written", 200}, {"c06_available_false_written", 200}, {"c06_succeeded_set", 15}, {"c06_intransition_cleared", 12},
 			{"c06_archived_true_written", 30}, {"c06_passes_on_archived_set", 30}, {"c06_controllerof_complete_checked", 60}},
 		Rule:        "run = random rollout / handover / probe regression / pause / archival / deletion histories with generation bumps between observation and status write, a lagging manager cache (status updates then hit 409), injected API errors, lost responses, crashes and restarts; every successful status write is compared with what the same pass observed (states read or returned by its own writes), condition histories are checked online; non-trivial = the run contains status writes; distinct = distinct step logs",
-		Assumptions: []string{"the manager's cached client may serve ObjectSets up to 4 commits old in a quarter of the runs"},
+		Assumptions: []string{"the manager's cached client may serve ObjectSets up to 6 commits old in three quarters of the runs"},
 	})
 }
